@@ -121,6 +121,17 @@ M=[
  ("M35-signet-prague-gt","src/engine/hardforks.rs","if block_number >= PRAGUE_ACTIVATION_HEIGHT_SIGNET {","if block_number > PRAGUE_ACTIVATION_HEIGHT_SIGNET {",["C19"]),
  ("M36-call-uses-previous-rule-set","src/engine/evm.rs","let evm_spec = get_evm_spec(block_number);","let evm_spec = if timestamp > 1_000_000_000_000 || block_hash != B256::ZERO { get_evm_spec(block_number) } else { get_evm_spec(block_number.saturating_sub(1)) };",["C17"]),
  ("M37-config-compare-trimmed","src/global/database.rs","if db_value != value.to_string() {","if db_value.trim() != value.to_string() {",["C20"]),
+ ("M38-auth-batch-first-three","src/server/auth.rs","        for entry in batch.iter_mut() {","        for entry in batch.iter_mut().take(3) {",["C12"]),
+ ("M39-auth-batch-stops-after-refusal","src/server/auth.rs","""                        *entry = Err(BatchEntryErr::new(
+                            req.id(),
+                            ErrorObject::borrowed(401, "Unauthorized", None),
+                        ));
+                    }""","""                        *entry = Err(BatchEntryErr::new(
+                            req.id(),
+                            ErrorObject::borrowed(401, "Unauthorized", None),
+                        ));
+                        break;
+                    }""",["C12"]),
 ]
 def sh(cmd, **kw):
     return subprocess.run(cmd, shell=True, capture_output=True, text=True, **kw)
